@@ -643,6 +643,8 @@ def loop_consts(run):
     m = re.search(r'snprintf\s*\(\s*pid_file\s*,[^,]+,\s*' + STR + r"\s*,\s*pid\s*\)", rp)
     v["rp_path_fmt"] = c_unescape(m.group(1)) if m else None
     v["rp_start_is_getpid"] = bool(re.search(r"return\s+get_rpname\s*\(\s*getpid\s*\(\s*\)\s*,\s*resultBuf\s*,\s*resultBufSize\s*\)", rp))
+    pb = func_body(rp, "read_proc_property") or ""
+    v["rp_value_verbatim"] = bool(re.search(r"if\s*\(\s*strcmp\s*\(\s*prop_name\s*,\s*k\s*\)\s*==\s*0\s*\)\s*\{\s*v\+\+\s*;\s*vLen\s*=\s*strlen\s*\(\s*v\s*\)\s*;\s*v\s*\[\s*vLen\s*-\s*1\s*\]\s*=\s*0\s*;\s*vLen--\s*;\s*if\s*\(\s*vLen\s*>", pb))
     # datetime
     dh = strip_comments(run.src("src/datasource/datetime.h"))
     m = re.search(r"SNOOPY_DATASOURCE_DATETIME_defaultFormat\s+" + STR, dh)
@@ -665,12 +667,12 @@ def loop_consts(run):
 
 CONST_ORDER = ["ea_comma_min", "ea_sep", "ea_whole_margin", "ea_cut_margin", "ea_marker_size", "ea_marker", "ea_null_guard",
                "cg_path_fmt", "cg_pid_is_getpid", "cg_none", "cg_missing_arg", "cg_num_fmt", "cg_line_sep", "cg_file_max",
-               "rp_key_name", "rp_key_ppid", "rp_unknown", "rp_root_pid", "rp_zero_pid", "rp_val_max", "rp_path_fmt", "rp_start_is_getpid",
+               "rp_key_name", "rp_key_ppid", "rp_unknown", "rp_root_pid", "rp_zero_pid", "rp_val_max", "rp_path_fmt", "rp_start_is_getpid", "rp_value_verbatim",
                "dt_default_fmt", "dt_buf", "cfg_version", "cfg_configure_command", "path_max", "login_name_max"]
 CONST_KIND = {"ea_comma_min": int, "ea_sep": bytes, "ea_whole_margin": int, "ea_cut_margin": int, "ea_marker_size": int, "ea_marker": bytes,
               "ea_null_guard": bool, "cg_path_fmt": bytes, "cg_pid_is_getpid": bool, "cg_none": bytes, "cg_missing_arg": bytes, "cg_num_fmt": bytes,
               "cg_line_sep": bytes, "cg_file_max": int, "rp_key_name": bytes, "rp_key_ppid": bytes, "rp_unknown": bytes, "rp_root_pid": int, "rp_zero_pid": int,
-              "rp_val_max": int, "rp_path_fmt": bytes, "rp_start_is_getpid": bool, "dt_default_fmt": bytes, "dt_buf": int,
+              "rp_val_max": int, "rp_path_fmt": bytes, "rp_start_is_getpid": bool, "rp_value_verbatim": bool, "dt_default_fmt": bytes, "dt_buf": int,
               "cfg_version": bytes, "cfg_configure_command": bytes, "path_max": int, "login_name_max": int}
 
 
